@@ -46,7 +46,10 @@ MANIFEST = dict(
                   kind_free_text="two-phase differential on the ASSEMBLED response: generate_document_diagnostic_report twice on one "
                                  "manager, the document's parser diagnostics, the five real checkers driven one by one vs the extracted "
                                  "Report.request on the dumped tree + parser diagnostics; items compared in order (range, severity, source, "
-                                 "tags, full message text); oracle on the implementation's output alone")],
+                                 "tags, full message text); oracle on the implementation's output alone"),
+             dict(name="E-reportranges", path="coq/extract/eng_reportranges.ml",
+                  kind_free_text="model-only: the two range hypotheses of C16_response_in_range_partial evaluated by the extracted "
+                                 "contrib / in_range_of / report on every dumped tree of the report stage")],
 )
 
 ASSUMPTIONS = [
@@ -56,6 +59,10 @@ ASSUMPTIONS = [
     "declared` errors, the return-type list and the shared collector of the three annotated-tree checkers (per node of the pre-order "
     "walk: unpurged, naming, inherited) are order-exact; lsp_types::Diagnostic fields code / code_description / related_information / "
     "data are None in every producer and not compared; the parser diagnostics are an input of the model (dumped from the document)",
+    "C16_response_in_range_partial assumes that the items about a top-level declaration lie in its range and the items about the "
+    "other declarations do not: checked on every tree of the report stage (coverage key range_hypotheses); they hold on every tree "
+    "parsed without diagnostics and fail on some trees with syntax errors (a method whose end keyword is missing or swallowed by an "
+    "unterminated string has a range that does not cover its body)",
     "identifiers are ASCII ([A-Za-z0-9_] by construction of the lexer): char::is_uppercase is modelled as A-Z and "
     "str::to_uppercase as ASCII upper-casing; where a string literal's content is compared with an ASCII word (PASS, the "
     "method name after `inherited x.`) the ten non-ASCII scalar values with an ASCII full upper-casing (sharp s, dotless i, "
@@ -1037,7 +1044,38 @@ def report_stage(ctx):
         v2 = resp[len(resp) - sum(len(g) for g in groups[2:]):]
         seq = [0 if report_item(x)[4].startswith("Local tVarByteArray") else (2 if report_item(x)[4].startswith("Method '") else 1) for x in v2]
         stats["with_observable_interleaving"] += 1 if seq != sorted(seq) else 0
-    cov.update(dict(histogram=hist, content=stats,
+    # the range hypotheses of C16_response_in_range_partial, evaluated by the extracted model on every dumped tree
+    # (model-only engine `reportranges`): for every top-level declaration m with a non-empty contribution, every item
+    # of contrib m lies in m's range and no item about the other declarations does.  They are facts about the parser's
+    # ranges, not theorems: a tree parsed WITHOUT diagnostics on which they fail breaks the reading of the partial theorem
+    raws = core.run_lines(diff.Engines.harness(), "report", cases)
+    lefts = [report_split(o)[0] if not (o.startswith("PANIC") or o == "CRASH") else "" for o in raws]
+    rr = core.run_lines(diff.Engines.model(), "reportranges", lefts)
+    ranges = dict(declarations_with_items=0, items_inside_own_range=0, and_no_foreign_item_inside=0,
+                  failing_files=0, failing_files_without_parser_diagnostics=0)
+    clean_fail = []
+    for c, left, r in zip(cases, lefts, rr):
+        f = r.split(":")
+        if len(f) != 3 or not all(x.isdigit() for x in f):
+            continue
+        n, a, ab = [int(x) for x in f]
+        ranges["declarations_with_items"] += n
+        ranges["items_inside_own_range"] += a
+        ranges["and_no_foreign_item_inside"] += ab
+        if ab < n:
+            ranges["failing_files"] += 1
+            if "@" in left and left.split("@", 1)[1] == "":
+                ranges["failing_files_without_parser_diagnostics"] += 1
+                clean_fail.append((c, r))
+    if clean_fail:
+        c, r = min(clean_fail, key=lambda t: len(t[0]))
+        path = core.write_replay(ctx.pid, ctx.seed, {
+            "engine": "report", "broken": "range hypotheses of C16_response_in_range_partial fail on a tree parsed without diagnostics",
+            "case": c, "case_readable": describe(c), "model": r, "n_failing_cases": len(clean_fail)})
+        v = core.Violation("the range hypotheses of the partial locality theorem fail on a cleanly parsed tree", path, False)
+        v.coverage = cov
+        raise v
+    cov.update(dict(histogram=hist, content=stats, range_hypotheses=ranges,
                     rule=("texts written to <tmp>/aCase.god; ProjectManager::generate_document_diagnostic_report twice on one manager; the "
                           "document's parser diagnostics and tree dumped; UnusedVarAnalyzer, FunctionReturnTypeChecker (own AstWalker) and "
                           "UnpurgedVarByteArrayChecker, NamingConventionChecker, InheritedChecker (own walker, own collector) driven one by "
